@@ -2891,10 +2891,12 @@ impl Context {
                 self.get_ctxdata().next_state_offset = Some(skeleton.total_size());
                 let (retv, _t, states) = self.eval_expr(*expr);
 
+                // the `self` cell is the first cell of the function at run time (GetState
+                // above reads it before any inner site advances the cursor)
                 (
                     Arc::new(Value::State(retv)),
                     ty,
-                    [states, vec![skeleton]].concat(),
+                    [vec![skeleton], states].concat(),
                 )
             }
             Expr::Let(pat, body, then) => {
